@@ -115,3 +115,22 @@ class kern_import_token_history:
 
     def raises(encoding):
         return {'Exception': cell_is_bad(encoding)}
+
+
+# ------------------------------------------------------------------------------------------------ the error list is what the caller sees
+from contracts.shapes import mk_importer, mk_simple_like
+
+
+@contract('kernpy.core.importer.Importer.has_errors', props=['C12'])
+class importer_has_errors:
+    """the importer says it has errors iff its error list is not empty (the list the cell step of run appends to, one entry per malformed
+    cell); asking changes nothing"""
+    def inputs(g):
+        imp = mk_importer(g)
+        imp.errors = g.mlist('errors', lambda e: mk_simple_like(e, 'ErrorToken', 'err'))
+        return {'self': imp}
+
+    modifies = ()
+
+    def post_iff_some_error(result, self):
+        return result == (len(self.errors) > 0)
